@@ -4,6 +4,7 @@ mod compat;
 mod ent;
 mod replay;
 mod scen;
+mod qosm;
 mod sim;
 mod winst;
 
@@ -56,6 +57,16 @@ fn main() {
                 "WriterInst" => {
                     let cfgc = cfg.clone();
                     let make = || winst::WInstModel::new(&cfgc);
+                    if args[1] == "replay" {
+                        replay::replay_graph(&arg(&args, "--edges").expect("--edges"), &make, maxdiv).json
+                    } else {
+                        let ops: Value = serde_json::from_str(&std::fs::read_to_string(arg(&args, "--ops").expect("--ops")).unwrap()).unwrap();
+                        replay::replay_ops(ops.as_array().unwrap(), &make)
+                    }
+                }
+                "Qos" => {
+                    let cfgc = cfg.clone();
+                    let make = || qosm::QosModel::new(&cfgc);
                     if args[1] == "replay" {
                         replay::replay_graph(&arg(&args, "--edges").expect("--edges"), &make, maxdiv).json
                     } else {
